@@ -457,7 +457,7 @@ func (c *FnCtx) assignTo(st *State, l ast.Expr, v *Val) {
 			c.storeStruct(st, p.T, typeShortName(t), "", t, v)
 			return
 		}
-		key := "ptr." + sortName(s)
+		key := c.ptrKey(t)
 		h := c.heapGet(st, key, s)
 		st.heap[key] = tApp("store", h, p.T, c.coerce(v, s).T)
 	default:
